@@ -2,6 +2,7 @@
 mod c08;
 mod c09;
 mod c10;
+mod c11;
 mod c15;
 mod c16;
 mod c17;
@@ -84,7 +85,9 @@ fn main() {
         }
     }
     // silence panic messages from catch_unwind'ed library panics
-    std::panic::set_hook(Box::new(|_| {}));
+    if std::env::var("QH_SHOW_PANICS").is_err() {
+        std::panic::set_hook(Box::new(|_| {}));
+    }
     let summary = match argv[1].as_str() {
         "c16" => c16::run(&args),
         "c08" => c08::run(&args),
@@ -93,6 +96,7 @@ fn main() {
         "c17" => c17::run(&args),
         "c09" => c09::run(&args),
         "c10" => c10::run(&args),
+        "c11" => c11::run(&args),
         "c15" => c15::run(&args),
         "c19" => c19::run(&args),
         other => {
